@@ -480,3 +480,32 @@ func (s *Server) Calls() ([]ListCall, []WatchCall) {
 	defer s.mu.Unlock()
 	return append([]ListCall(nil), s.Lists...), append([]WatchCall(nil), s.Watches...)
 }
+
+// ObjectsAt reconstructs the server state at a version from the log.
+func (s *Server) ObjectsAt(v int) []*kobj.Obj {
+	s.mu.Lock()
+	defer s.mu.Unlock()
+	m := map[[2]int]*kobj.Obj{}
+	for _, e := range s.log {
+		if e.Version > v {
+			break
+		}
+		k := [2]int{e.Obj.NS, e.Obj.NM}
+		if e.Type == watch.Deleted {
+			delete(m, k)
+		} else {
+			m[k] = e.Obj
+		}
+	}
+	var r []*kobj.Obj
+	for _, o := range m {
+		r = append(r, o)
+	}
+	sort.Slice(r, func(i, j int) bool {
+		if r[i].NS != r[j].NS {
+			return r[i].NS < r[j].NS
+		}
+		return r[i].NM < r[j].NM
+	})
+	return r
+}
